@@ -376,9 +376,10 @@ def _is_anchor_fn(P, f):
 
 
 def scope_guard_constructors(P, f):
-    """If f is the Drop::drop of a crate type that is only ever used as a scope guard - every value is built into a local that is
-    then just dropped at scope end (or handed to mem::forget), never moved into a call, an aggregate or the return value - return
-    the functions that build it: the guard's destructor runs as part of *their* scope, wherever the type is declared."""
+    """If f is the Drop::drop of a crate type that is only ever used as a scope guard - every value is built (directly, or by a
+    constructor function returning it) into a local that is then just dropped at scope end (or handed to mem::forget), never moved
+    into a call, an aggregate or a return value - return the functions holding those locals: the guard's destructor runs as part
+    of *their* scope, wherever the type is declared."""
     cache = P.__dict__.setdefault("_sgc", {})
     if f.id in cache:
         return cache[f.id]
@@ -386,19 +387,46 @@ def scope_guard_constructors(P, f):
     io = f.impl_of or {}
     if io.get("trait") and io["trait"].endswith("ops::Drop") and f.npath.endswith("::drop"):
         head = type_head(io.get("self_ty", ""))
-        builders = []
         guard = True
+        makers = set()        # functions whose return value is a freshly built X
+        holders = {}          # fn id -> set of locals holding a fresh X
         for g in P.fns.values():
-            locs = set()
             for b in g.blocks:
                 for st in b["stmts"]:
                     if st["k"] == "assign" and st["rv"]["k"] == "agg" and st["rv"].get("agg") == "adt" and type_head(norm_path(st["rv"].get("adt", ""))) == head:
-                        if st["place"]["p"] or st["place"]["l"] == 0:
-                            guard = False     # built into a field or into the return place: a value, not a scope guard
+                        if st["place"]["p"]:
+                            guard = False     # built into a field: a value, not a scope guard
+                        elif st["place"]["l"] == 0:
+                            makers.add(g.id)
                         else:
-                            locs.add(st["place"]["l"])
-            if not locs:
-                continue
+                            holders.setdefault(g.id, set()).add(st["place"]["l"])
+        grew = True
+        rounds = 0
+        while grew and guard and rounds < 4:
+            grew = False
+            rounds += 1
+            for g in P.fns.values():
+                for bi, b in enumerate(g.blocks):
+                    t = b["term"]
+                    if t["k"] != "call":
+                        continue
+                    ci = P.classify(g, bi)
+                    if not ci or not any(tf.id in makers for tf in ci.get("targets", [])):
+                        continue
+                    d = t["dest"]
+                    if d["p"]:
+                        guard = False
+                    elif d["l"] == 0:
+                        if g.id not in makers:
+                            makers.add(g.id); grew = True
+                    elif d["l"] not in holders.setdefault(g.id, set()):
+                        holders[g.id].add(d["l"]); grew = True
+        builders = []
+        for gid, locs in holders.items():
+            if not guard:
+                break
+            g = P.fns[gid]
+            locs = set(locs)
             builders.append(g)
             # plain moves into another local (`_t = move _guard; forget(move _t)`) are the same value
             grew = True
@@ -688,6 +716,11 @@ def check_wrappers(R, F, P, cfg, rule):
             raise AnchorMissing(w)
         S = Super(P, f, opaque=set())
         fcalls = [n for n in S.nodes if n.ci is not None and n.ci["k"] == "call" and n.ci.get("kind") == "wrapper_f" and not n.inlined]
+        # the closure parameter handed on as it is to LocalKey::with / try_with (which call it once, try_with at most once)
+        for n in S.nodes:
+            if n.ci is not None and n.ci["k"] == "call" and n.ci["npath"] in ("std::thread::LocalKey::<T>::try_with", "std::thread::LocalKey::<T>::with"):
+                if any(strip(a)[:1] == ("param",) and strip(a)[2] == f.arg_count and f.arg_count >= 1 for a in S.args_of(n)[1:]):
+                    fcalls.append(n)
         loops = [n for n in fcalls if on_cycle(S, n, exclude=("ui", "u"))]
         paths = tables.normal_paths(S, limit=5000)
         counts = sorted({len([x for x in p.events if x in fcalls]) for p in paths})
@@ -708,6 +741,31 @@ def check_wrappers(R, F, P, cfg, rule):
             ok = ok and div
             det += "; fallback of unwrap_or_else diverges: %s" % div
         R.inst(rule, "wrapper:%s" % w, ok, "%s (table: min %s, max %s): %s" % (w, mn, mx, det), where=f.span, cfg=cfg)
+    check_indirect_calls(R, F, P, cfg, rule)
+
+
+def check_indirect_calls(R, F, P, cfg, rule):
+    """The may-run-user-code sets and the phase-flag interpretation follow direct, virtual and closure calls. A call through a
+    fn pointer is followed only when its value is, at that site, a known function item of the crate (the supergraph then treats
+    it as a direct call); any other indirect call would be a hole in those analyses and is reported."""
+    sites = P.call_sites(lambda c: c.get("kind") == "indirect")
+    bad = []
+    for (f, bb, ci) in sites:
+        resolved = 0
+        total = 0
+        for o in sorted(lift_owner(P, f)):
+            rf = F.fn(o)
+            if rf is None:
+                continue
+            S = Super(P, rf, opaque=default_opaque(F) - {rf.npath})
+            for n in S.nodes:
+                if n.ctx.fn is f and n.bb == bb and n.ci is not None:
+                    total += 1
+                    if n.ci.get("resolved_indirect"):
+                        resolved += 1
+        if total == 0 or resolved != total:
+            bad.append("%s bb%d (%s): resolved in %d of %d expansions" % (f.npath, bb, ci["term"]["callee"].get("ty", "?"), resolved, total))
+    R.inst(rule, "indirect-calls", not bad, "%d call(s) through fn pointers in the crate; not resolvable to a crate function item where they are expanded: %s" % (len(sites), bad or "none"), cfg=cfg, nontrivial=bool(sites))
 
 
 def _reachable_block(fn, target):
